@@ -12,8 +12,7 @@ pub mod serial;
 
 use std::time::Duration;
 
-use tokio::io::{AsyncReadExt, AsyncWriteExt};
-use tokio::net::TcpStream;
+use tokio::io::{AsyncRead, AsyncReadExt, AsyncWrite, AsyncWriteExt};
 
 use crate::model::framing::mbap_frame;
 use crate::runner::{CaseOk, CaseResult};
@@ -72,7 +71,7 @@ pub enum Probe {
 
 /// Send a read-holding-register(0) sentinel with the given transaction id and classify what
 /// comes back
-pub async fn probe(stream: &mut TcpStream, unit: u8, tx: u16, wait: Duration) -> Probe {
+pub async fn probe<S: AsyncRead + AsyncWrite + Unpin + ?Sized>(stream: &mut S, unit: u8, tx: u16, wait: Duration) -> Probe {
     let req = mbap_frame(tx, unit, &[3, 0, 0, 0, 1]);
     if stream.write_all(&req).await.is_err() {
         return Probe::Closed;
@@ -80,7 +79,7 @@ pub async fn probe(stream: &mut TcpStream, unit: u8, tx: u16, wait: Duration) ->
     read_reply(stream, tx, wait).await
 }
 
-pub async fn read_reply(stream: &mut TcpStream, tx: u16, wait: Duration) -> Probe {
+pub async fn read_reply<S: AsyncRead + AsyncWrite + Unpin + ?Sized>(stream: &mut S, tx: u16, wait: Duration) -> Probe {
     let mut buf = [0u8; 300];
     let mut got: Vec<u8> = Vec::new();
     let deadline = tokio::time::Instant::now() + wait;
@@ -117,7 +116,7 @@ pub async fn read_reply(stream: &mut TcpStream, tx: u16, wait: Duration) -> Prob
 }
 
 /// Wait for EOF / reset on a connection without sending anything
-pub async fn expect_closed(stream: &mut TcpStream, wait: Duration) -> Probe {
+pub async fn expect_closed<S: AsyncRead + AsyncWrite + Unpin + ?Sized>(stream: &mut S, wait: Duration) -> Probe {
     let mut buf = [0u8; 64];
     match tokio::time::timeout(wait, stream.read(&mut buf)).await {
         Err(_) => Probe::Silent,
